@@ -10,6 +10,9 @@
 (*   bootstrap_crossval          "bootcv"    cv = "kfold", nCv repetitions *)
 (*   eval_dual_bootstrap         "dual"      three variants per repetition *)
 (*   eval_dual_bootstrap_random  "dualrand"  cv = "random", nCv test sets  *)
+(*   bootstrap_testset[_rdm|_pattern]  "testset"  cv = "testset": fit on    *)
+(*                               the sample, evaluate on the groups NOT     *)
+(*                               drawn (inference/boot_testset.py)          *)
 (*                                                                         *)
 (* A run configuration rc fixes routine, resampled axes, grouping          *)
 (* descriptors, fold scheme, k / n values, number of samples N, number of  *)
@@ -60,7 +63,7 @@ allvars == <<evars, objs, hist, fc, folds, stage>>
 NVar(c) == IF c.routine = "dual" THEN 3 ELSE 1
 NRep(c) == IF c.routine \in {"bootcv", "dual"} THEN c.nCv ELSE 1
 NFolds(c) == CASE c.routine = "fixed" -> NR
-               [] c.cv = "none" -> 1
+               [] c.cv \in {"none", "testset"} -> 1
                [] c.cv = "kfold" -> c.kR * c.kP
                [] c.cv = "kfoldpat" -> c.kP
                [] c.cv = "random" -> c.nCv
@@ -112,9 +115,16 @@ DrawsL(g, lvl) == IF lvl >= 2 THEN [1..g -> 1..g]
                                                \/ lvl = 1 /\ \A k \in 1..g : d[k] = g
                                                \/ lvl = 1 /\ \A k \in 1..g : d[k] = IF k = 1 THEN g ELSE IF k = g THEN 1 ELSE 1 + (k % g)}
 DrawLevel(i) == IF i = 1 THEN ArgLevel ELSE IF ArgLevel >= 2 THEN 0 ELSE ArgLevel
+\* the test-set routines evaluate on the groups NOT drawn: the trimmed levels get one more outcome, the first
+\* half of the groups drawn twice (1,2,3,1,2,3), which leaves the other half out
+HalfTwice(g) == LET h == (g + 1) \div 2 IN [k \in 1..g |-> ((k - 1) % h) + 1]
+DrawsFor(c, g, lvl) == IF c.routine = "testset" /\ lvl < 2 THEN DrawsL(g, lvl) \cup {HalfTwice(g)} ELSE DrawsL(g, lvl)
 DrawChoices(c, i) ==
-  {<<dr, dp>> : dr \in (IF c.bootR THEN DrawsL(Len(GR0(c)), DrawLevel(i)) ELSE {<<>>}),
-                dp \in (IF c.bootP THEN DrawsL(Len(GP0(c)), DrawLevel(i)) ELSE {<<>>})}
+  {<<dr, dp>> : dr \in (IF c.bootR THEN DrawsFor(c, Len(GR0(c)), DrawLevel(i)) ELSE {<<>>}),
+                dp \in (IF c.bootP THEN DrawsFor(c, Len(GP0(c)), DrawLevel(i)) ELSE {<<>>})}
+\* the groups not drawn (np.setdiff1d: sorted), per axis; everything when the axis is not resampled
+TestGroupsR(c, d) == IF c.bootR THEN SelectSeq(GR0(c), LAMBDA g : g \notin Range(Ridx(c, d))) ELSE GR0(c)
+TestGroupsP(c, d) == IF c.bootP THEN SelectSeq(GP0(c), LAMBDA g : g \notin Range(Pidx(c, d))) ELSE GP0(c)
 DrawOk(c, d) == /\ Len(d) = 2
                 /\ IF c.bootR THEN IsDraw(d[1], GR0(c)) ELSE d[1] = <<>>
                 /\ IF c.bootP THEN IsDraw(d[2], GP0(c)) ELSE d[2] = <<>>
@@ -125,6 +135,7 @@ SmallSample(c, d) ==
     [] c.cv = "kfold" /\ c.routine \in {"bootcv", "dual"} ->
           NU(Ridx(c, d)) < c.kR \/ NU(Pidx(c, d)) < 3 * c.kP
     [] c.cv = "random" -> ~(NU(Ridx(c, d)) > c.kR /\ NU(Pidx(c, d)) >= 3 + c.kP)
+    [] c.cv = "testset" -> (c.bootP /\ Len(TestGroupsP(c, d)) < 3) \/ (c.bootR /\ Len(TestGroupsR(c, d)) < 1)
     [] OTHER -> FALSE
 
 (* ---------------- fold lists ---------------------------------------------- *)
@@ -162,8 +173,15 @@ PseudoFolds(c, ob, pidx) ==
   IF c.routine = "fixed"
   THEN [r \in 1..Len(ob.rows) |-> LiteF(<<>>, <<>>, <<ob.rows[r]>>, ob.pats, <<>>, <<>>, FALSE, <<>>, pidx)]
   ELSE <<LiteF(<<>>, <<>>, ob.rows, ob.pats, <<>>, <<>>, FALSE, <<>>, pidx)>>
-SetsOf(c, ob, pp, pidx) ==
-  CASE c.cv = "kfold" -> LiteSeq(KFold(ob, c.byR, c.byP, c.kR, c.kP, pp[1], Tail(pp)))
+\* bootstrap_testset*: ONE fold; training object = the sample with the drawn index list, test object = the
+\* data restricted to the condition groups not drawn (subsample_pattern) and the RDM groups not drawn (subsample)
+TestsetFold(c, ob, d) ==
+  LET tp == IF c.bootP THEN SubsamplePats(Source, c.byP, TestGroupsP(c, d)) ELSE Source
+      te == IF c.bootR THEN SubsampleRows(tp, c.byR, TestGroupsR(c, d)) ELSE tp
+  IN <<LiteF(ob.rows, ob.pats, te.rows, te.pats, <<>>, <<>>, FALSE, Pidx(c, d), TestGroupsP(c, d))>>
+SetsOf(c, ob, pp, pidx, d) ==
+  CASE c.cv = "testset" -> TestsetFold(c, ob, d)
+    [] c.cv = "kfold" -> LiteSeq(KFold(ob, c.byR, c.byP, c.kR, c.kP, pp[1], Tail(pp)))
     [] c.cv = "kfoldpat" -> LiteSeq(KFoldPattern(ob, c.byP, c.kP, pp[1]))
     [] c.cv = "random" -> LiteSeq(RandomSets(ob, c.byR, c.byP, c.kR, c.kP, Groups(RDesc(ob, c.byR)),
                                              Groups(PDesc(ob, c.byP)), pp))
@@ -180,8 +198,8 @@ Concat(s1, s2) == IF s2 = <<>> THEN <<>> ELSE SelectSeq(s1, LAMBDA x : x = Head(
 SelPats(ob, by, idx) == Pick(ob.pats, SortAsc(MatchSeq(PDesc(ob, by), idx)))
 PredConds(c, idx) == SelPats(Source, c.byP, idx)
 \* the index list with which the prediction of a fold is restricted / the fitter is called
-TestIdx(c, F, pidx) == IF c.cv = "none" THEN F.teI ELSE Concat(pidx, F.teI)
-TrainIdx(c, F, pidx) == Concat(pidx, F.trI)
+TestIdx(c, F, pidx) == IF c.cv \in {"none", "testset"} THEN F.teI ELSE Concat(pidx, F.teI)
+TrainIdx(c, F, pidx) == IF c.cv = "testset" THEN F.trI ELSE Concat(pidx, F.trI)
 
 \* A fitter call carries, besides the training object and the index list, the comparison method the
 \* parameters are optimised for (rc.method: the method the routine was called with; the symbol "M" in the
@@ -216,6 +234,7 @@ LooFoldsNc(c, FF) ==
                                    allP |-> SelPats(Source, c.byP, FF[ok[k]].teI)]]]
 NcOf(c, ob, FF) ==
   CASE c.routine = "fixed" -> LooNc(ob, "index")
+    [] c.cv = "testset" -> NoNc                       \* the test-set routines report no ceiling
     [] c.cv = "none" -> LooNc(ob, c.byR)
     [] c.routine = "crossval" /\ c.cv = "kfold" -> CvNc(c, Source, FF)
     [] c.routine = "crossval" -> LooFoldsNc(c, FF)
@@ -224,7 +243,7 @@ NcOf(c, ob, FF) ==
 
 (* ---------------- degrees of freedom ---------------------------------------- *)
 DofOf(c) == CASE c.routine = "fixed" -> NR - 1
-              [] c.routine = "crossval" -> 0 - 1            \* no claim
+              [] c.routine \in {"crossval", "testset"} -> 0 - 1            \* no claim
               [] c.bootR /\ c.bootP -> Min2(Len(GR0(c)), Len(GP0(c))) - 1
               [] c.bootR -> Len(GR0(c)) - 1
               [] OTHER -> Len(GP0(c)) - 1
@@ -261,7 +280,7 @@ MakeSets(pp) ==
   /\ phase \in {"drawn", "repdone"} /\ ~SmallSample(rc, draw) /\ rep < NRep(rc)
   /\ Len(pp) = NVar(rc) /\ \A v \in 1..NVar(rc) : PermsOk(rc, sample[v], pp[v])
   /\ rep' = rep + 1
-  /\ sets' = [v \in 1..NVar(rc) |-> SetsOf(rc, sample[v], pp[v], PidxVar(rc, draw, v))]
+  /\ sets' = [v \in 1..NVar(rc) |-> SetsOf(rc, sample[v], pp[v], PidxVar(rc, draw, v), draw)]
   /\ phase' = "sets"
   /\ log' = [log EXCEPT ![smp].perms = Append(@, pp)]
   /\ UNCHANGED <<smp, draw, sample, theta, pred, pend, pnc, ev, nc, nst, agg>> /\ Frozen
@@ -303,7 +322,7 @@ Ceiling ==
   /\ UNCHANGED <<smp, draw, sample, rep, sets, theta, pred, pend, ev, nc, nst, agg, log>> /\ Frozen
 
 \* with boot_noise_ceil = FALSE the ceiling is that of the data, computed once (Aggregate)
-StoresNc(c) == ~(c.routine = "boot" /\ ~c.bootNc)
+StoresNc(c) == ~(c.routine = "boot" /\ ~c.bootNc) /\ c.routine # "testset"
 Store ==
   /\ phase = "ceil"
   /\ Len(sets[1]) = NFolds(rc)
@@ -317,7 +336,7 @@ FirstKey(i) == <<i, 1, 1, 1, 1>>
 Aggregate ==
   /\ phase = "stored" /\ smp = rc.N
   /\ agg' = [done |-> TRUE, ok |-> {i \in 1..rc.N : ~IsNaN(ev[FirstKey(i)])}, dof |-> DofOf(rc)]
-  /\ nc' = IF StoresNc(rc) THEN nc ELSE [k \in {<<0, 1, 1>>} |-> LooNc(Source, rc.byR)]
+  /\ nc' = IF StoresNc(rc) \/ rc.routine = "testset" THEN nc ELSE [k \in {<<0, 1, 1>>} |-> LooNc(Source, rc.byR)]
   /\ phase' = "done"
   /\ UNCHANGED <<smp, draw, sample, rep, sets, theta, pred, pend, pnc, ev, nst, log>> /\ Frozen
 
@@ -362,7 +381,7 @@ SampleIsDraw ==
           /\ rc.bootP => \A g \in Range(PDesc(Source, rc.byP)) :
                 Count(PDesc(s, rc.byP), g) = Count(Pidx(rc, draw), g) * Count(PDesc(Source, rc.byP), g)
           /\ ~rc.bootP => s.pats = Source.pats
-  /\ phase \in {"stored", "done"} => \A i \in 1..smp :
+  /\ phase \in {"stored", "done"} /\ rc.routine # "testset" => \A i \in 1..smp :
        LET SS == SamplesOf(rc, log[i].d) IN          \* (once per sample: TLC caches LET values)
        \A k \in {kk \in Cells : kk[1] = i} :
        LET ss == SS[k[5]]  c == ev[k] IN
@@ -377,6 +396,24 @@ SampleIsDraw ==
             LET n == Cardinality({p \in DOMAIN c.data.rows : RDesc(Source, rc.byR)[c.data.rows[p]] = g}) IN
             rc.routine # "fixed" => n \in {0, Count(RDesc(ss, rc.byR), g)}
 
+\* test-set routines: the compared data are exactly the groups NOT drawn (every member once, data order within
+\* the sorted groups), the parameters come from the sample only: training object = the sample of the draw, and
+\* no entry (RDM, condition pair) of the test object occurs in it
+TestIsComplementOfDraw == rc.routine = "testset" /\ phase \in {"stored", "done"} =>
+  \A k \in Cells :
+    LET d == log[k[1]].d  c == ev[k]  ss == SamplesOf(rc, d)[1]
+        colR == RDesc(Source, rc.byR)  colP == PDesc(Source, rc.byP) IN
+    /\ c.data.rows = SelectSeq(Flat([g \in DOMAIN GR0(rc) |-> Matching(colR, {GR0(rc)[g]})]),
+                               LAMBDA r : ~rc.bootR \/ colR[r] \notin Range(Ridx(rc, d)))
+    /\ c.data.conds = SelectSeq(Source.pats, LAMBDA p : ~rc.bootP \/ colP[p] \notin Range(Pidx(rc, d)))
+    /\ rc.bootR => {colR[c.data.rows[q]] : q \in DOMAIN c.data.rows} \cup Range(Ridx(rc, d)) = Range(colR)
+    /\ rc.bootP => {colP[c.data.conds[q]] : q \in DOMAIN c.data.conds} \cup Range(Pidx(rc, d)) = Range(colP)
+    \* ThetaFromSampleOnly
+    /\ c.pred.theta.rows = ss.rows /\ c.pred.theta.conds = ss.pats /\ c.pred.theta.pidx = Pidx(rc, d)
+    /\ \A r \in Range(c.data.rows) : \A p \in Range(c.data.conds) : \A q \in Range(c.data.conds) :
+          ~(r \in Range(ss.rows) /\ p \in Range(ss.pats) /\ q \in Range(ss.pats) /\ p # q)
+    /\ Len(c.data.conds) >= 3 /\ Len(c.data.rows) >= 1
+
 \* b: parameters exist before they are used, and are those of the cell's own fold
 FitBeforeUse ==
   /\ phase \in {"pred", "cmp", "ceil"} =>
@@ -386,8 +423,8 @@ FitBeforeUse ==
   \* fitted for the comparison method of the routine, index list in terms of the routine's pattern descriptor
   /\ \A k \in Cells : ev[k].pred.theta.kind = "fit" =>
         ev[k].pred.theta.meth = rc.method /\ ev[k].pred.theta.desc = rc.byP
-SplitP(c) == (c.cv \in {"kfold", "kfoldpat"} /\ c.kP > 1) \/ (c.cv = "random" /\ c.kP > 0)
-SplitR(c) == (c.cv = "kfold" /\ c.kR > 1) \/ (c.cv = "random" /\ c.kR > 0)
+SplitP(c) == (c.cv \in {"kfold", "kfoldpat"} /\ c.kP > 1) \/ (c.cv = "random" /\ c.kP > 0) \/ (c.cv = "testset" /\ c.bootP)
+SplitR(c) == (c.cv = "kfold" /\ c.kR > 1) \/ (c.cv = "random" /\ c.kR > 0) \/ (c.cv = "testset" /\ c.bootR)
 GroupsOfConds(c, s) == {PDesc(Source, c.byP)[s[p]] : p \in DOMAIN s}
 GroupsOfRows(c, s) == {RDesc(Source, c.byR)[s[p]] : p \in DOMAIN s}
 ThetaFromOwnFold ==
@@ -402,7 +439,7 @@ ThetaFromOwnFold ==
 
 \* c: NaN exactly for resamples (folds) too small to evaluate; a sample is NaN as a whole or not at all
 \* the fold list of (sample i, repetition r, variant v), recomputed from the logged outcomes
-FoldsOfLog(i, r, v) == SetsOf(rc, SamplesOf(rc, log[i].d)[v], log[i].perms[r][v], PidxVar(rc, log[i].d, v))
+FoldsOfLog(i, r, v) == SetsOf(rc, SamplesOf(rc, log[i].d)[v], log[i].perms[r][v], PidxVar(rc, log[i].d, v), log[i].d)
 NaNIffTooSmall ==
   /\ rc.routine # "crossval" => \A k \in DOMAIN ev : IsNaN(ev[k]) <=> SmallSample(rc, log[k[1]].d)
   /\ phase = "done" => \A i \in 1..rc.N :
@@ -432,7 +469,7 @@ CeilingSameSample == phase \in {"stored", "done"} =>
                     /\ key \in DOMAIN ev /\ ~IsNaN(ev[key]) => F.ceR = ev[key].pred.theta.rows
 
 \* e: dof = number of resampled units - 1, the smaller when both axes are resampled
-DofRule == agg.done /\ rc.routine \notin {"crossval"} =>
+DofRule == agg.done /\ rc.routine \notin {"crossval", "testset"} =>
   LET ur == Cardinality(Range(RDesc(Source, rc.byR)))  up == Cardinality(Range(PDesc(Source, rc.byP))) IN
   /\ rc.routine = "fixed" => agg.dof = Len(Source.rows) - 1
   /\ rc.routine # "fixed" /\ rc.bootR /\ rc.bootP => agg.dof = Min2(ur, up) - 1
@@ -454,6 +491,8 @@ TypeOk == /\ phase \in {"start", "drawn", "sets", "fit", "pred", "cmp", "ceil", 
 EmitRun == (phase = "done" /\ (EmitMod = 1 \/ rc.routine \in {"fixed", "crossval"} \/ RandomElement(1..EmitMod) = 1)) =>
   PrintT(ToJson([rc |-> rc, log |-> log,
                  cells |-> [k \in 1..NKeys(rc) |-> ev[KeyAt(rc, k)]],
-                 nc |-> IF StoresNc(rc) THEN [k \in 1..NNcKeys(rc) |-> nc[NcKeyAt(rc, k)]] ELSE <<nc[<<0, 1, 1>>]>>,
+                 nc |-> IF StoresNc(rc) THEN [k \in 1..NNcKeys(rc) |-> nc[NcKeyAt(rc, k)]]
+                        ELSE IF rc.routine = "testset" THEN <<>> ELSE <<nc[<<0, 1, 1>>]>>,
+                 ntest |-> [i \in 1..rc.N |-> <<Len(TestGroupsR(rc, log[i].d)), Len(TestGroupsP(rc, log[i].d))>>],
                  dof |-> agg.dof, ok |-> [i \in 1..rc.N |-> IF i \in agg.ok THEN 1 ELSE 0]]))
 =============================================================================
